@@ -247,6 +247,13 @@ func runCliTargets(col *Collector, focus, tier string, rng *rand.Rand) {
 			jobs = jobs[:60]
 		}
 	}
+	// the same target named more than once: it runs once per mention, in order
+	// (not adjacent: the trace reader folds adjacent equal marks, which a two-stage pipeline produces; and not
+	// pipelines: a pipeline named twice finds its stages already done the second time)
+	for _, ts := range [][]string{{"t1", "t2", "t1"}, {"t3", "t1", "t3"}, {"t2", "t1", "t2", "t1"}} {
+		fixed = append(fixed, job{ts, map[string]int{"t1": 0, "t2": 0, "t3": 7, "t4": 0, "t5": 0, "t6": 0, "p1": 0, "p2": 0}, "root", nil, nil, nil})
+		fixed = append(fixed, job{ts, map[string]int{"t1": 5, "t2": 0, "t3": 7, "t4": 0, "t5": 0, "t6": 0, "p1": 0, "p2": 0}, "run", nil, nil, nil})
+	}
 	// allow_failure covers non-zero exit statuses only: a failing before hook / an overrun still fails the target
 	for _, first := range []string{"t4", "t5"} {
 		for _, form := range []string{"root", "run"} {
